@@ -193,16 +193,21 @@ def _accumulators(fn, loop):
   return written & after
 
 
-def _decide_loop(ctx, mod, cname, fn, loop, ms, construct):
-  what = f"{cname}.{fn.name}"
+def _understood_shape(loop, ms):
+  """The body is if-nesting over simple statements: nested loops / try / match
+  blocks / local functions that match a component or leave the iteration are
+  outside the path enumeration (such a loop is not an instance)."""
+  t0 = _flow_insensitive_taint(loop)
   for n in ast.walk(loop):
     if n is not loop and isinstance(n, (ast.For, ast.While, ast.Try, ast.Match) + _FUNCS):
-      t0 = _flow_insensitive_taint(loop)
       if _element_match_calls(n, t0, ms) or (not isinstance(n, _FUNCS) and any(
           isinstance(x, (ast.Return, ast.Break, ast.Continue)) for x in ast.walk(n))):
-        raise AnalysisError(
-            f"{what}: the component loop contains a nested "
-            f"{type(n).__name__} that matches or leaves the iteration: not understood")
+        return False
+  return True
+
+
+def _decide_loop(ctx, mod, cname, fn, loop, ms, construct):
+  what = f"{cname}.{fn.name}"
   if loop.orelse:
     raise AnalysisError(f"{what}: component loop with an else clause not understood")
   acc = _accumulators(fn, loop)
@@ -286,7 +291,7 @@ def _decide_loop(ctx, mod, cname, fn, loop, ms, construct):
 
 
 def _has_failure_exit(loop, ms):
-  for n in walk_no_nested(loop):
+  for n in walk_no_nested(ast.Module(body=loop.body, type_ignores=[])):
     if isinstance(n, ast.Raise):
       return True
     if isinstance(n, ast.Return) and (n.value is None or _is_none(n.value)):
@@ -324,7 +329,7 @@ def _enclosing_tests(loop, node):
   return out
 
 
-@rule("R2.27", "C02", floor=7)
+@rule("R2.27", "C02", floor=9)
 def r2_27(ctx):
   """All-components-must-match loops of the matcher examine every component."""
   mod = get_module(ctx, MATCHER)
@@ -340,7 +345,7 @@ def r2_27(ctx):
         body = ast.Module(body=loop.body, type_ignores=[])
         if not _element_match_calls(body, tainted, ms):
           continue
-        if not _has_failure_exit(loop, ms):
+        if not _has_failure_exit(loop, ms) or not _understood_shape(loop, ms):
           continue
         k += 1
         _decide_loop(ctx, mod, cname, fn, loop, ms,
@@ -377,6 +382,18 @@ VARIANTS = [
     {"name": "twin-homogeneous-guard-clause", "rule": "R2.27", "file": MATCHER, "expect": "silent",
      "old": "            if new_subst is None:\n              return None\n          if new_subst is not None:\n            new_substs.append(new_subst)\n",
      "new": "            if new_subst is None:\n              return None\n          if new_subst is None:\n            continue\n          new_substs.append(new_subst)\n"},
+    {"name": "twin-homogeneous-arm-in-helper", "rule": "R2.27", "expect": "silent",
+     "edits": [
+         (MATCHER, _HOMO,
+          "            new_subst = self._element_subst(\n"
+          "                instance_param, class_param, subst, view\n"
+          "            )\n"
+          "            if new_subst is None:\n"
+          "              return None\n"),
+         (MATCHER, "  def _match_callable_args_against_callable(\n",
+          "  def _element_subst(self, element, expected, subst, view):\n"
+          "    return self.match_var_against_type(element, expected, subst, view)\n\n"
+          "  def _match_callable_args_against_callable(\n")]},
     {"name": "twin-fixed-tuple-zip", "rule": "R2.27", "file": MATCHER, "expect": "silent",
      "old": "          for i in range(instance.tuple_length):\n" + _FIXED,
      "new": "          for instance_param, class_param in zip(\n"
